@@ -304,6 +304,8 @@ impl PrivateBatchProver {
         // reference from the first non-dummy slot in-circuit, so no position is special.
         if proofs.len() > 1 {
             let mut rng = rand::thread_rng();
+            #[cfg(quantus_network_qp_zk_circuits_verif)]
+            let mut rng = crate::verif_hooks::wrap_rng(rng);
             proofs.shuffle(&mut rng);
         }
 
@@ -340,6 +342,24 @@ impl PrivateBatchProver {
         proofs: Vec<ProofWithPublicInputs<F, C, D>>,
     ) -> Result<ProofWithPublicInputs<F, C, D>> {
         self.commit(proofs)?.prove()
+    }
+}
+
+/// Simulator access to the committed witness (read-only) and re-arming of a
+/// built prover so one circuit build serves many simulated commits.
+#[cfg(quantus_network_qp_zk_circuits_verif)]
+impl PrivateBatchProver {
+    pub fn verif_targets(&self) -> Option<PrivateBatchCircuitTargets> {
+        self.targets.clone()
+    }
+
+    pub fn verif_partial_witness(&self) -> &PartialWitness<F> {
+        &self.partial_witness
+    }
+
+    pub fn verif_rearm(&mut self, targets: PrivateBatchCircuitTargets) {
+        self.partial_witness = PartialWitness::new();
+        self.targets = Some(targets);
     }
 }
 
